@@ -13,6 +13,7 @@ import (
 	"github.com/mycoria/mycoria/frame"
 	"github.com/mycoria/mycoria/m"
 	"github.com/mycoria/mycoria/peering"
+	"github.com/mycoria/mycoria/state"
 
 	"verifharness/core"
 	"verifharness/env"
@@ -146,7 +147,8 @@ var sizePool = []int{68, 69, 100, 300, 571, 572, 573, 600, 1000, 1571, 1572, 157
 
 type plan struct {
 	kind     string
-	at       int // index (relative to the first frame of the run) of the link frame the fault is applied to
+	wrap     bool // the sender's regular link counter wraps during the run
+	at       int  // index (relative to the first frame of the run) of the link frame the fault is applied to
 	bytePos  int
 	bit      uint
 	distance int
@@ -156,7 +158,11 @@ type plan struct {
 }
 
 func (p plan) String() string {
-	return fmt.Sprintf("%s at=%d byte=%d bit=%d dist=%d inject=%d field=%s", p.kind, p.at, p.bytePos, p.bit, p.distance, len(p.inject), p.field)
+	w := ""
+	if p.wrap {
+		w = " across-key-rollover"
+	}
+	return fmt.Sprintf("%s at=%d byte=%d bit=%d dist=%d inject=%d field=%s%s", p.kind, p.at, p.bytePos, p.bit, p.distance, len(p.inject), p.field, w)
 }
 
 func linkField(msgLen, i int) string {
@@ -271,10 +277,23 @@ func runPlan(res *core.Result, r *rand.Rand, lp *linkPair, dir wire.Dir, p plan,
 		return out
 	}
 	defer func() { lp.w.Plan = nil }()
+	if p.kind == "segmented" {
+		// the byte stream reaches the receiver in pieces of at most p.distance bytes (no byte altered)
+		lp.w.SetReadChunk(dir, p.distance)
+		defer lp.w.SetReadChunk(dir, 0)
+		faultDone = true
+	}
+	if p.wrap {
+		// the sender's link-layer regular counter is just before the 32-bit wrap: the key rolls over during this run
+		if enc := peering.VerifLinkEncryption(link); enc != nil {
+			h := &state.EncryptionSessionTestHelper{EncryptionSession: enc}
+			h.ReglSetOut(0xFFFFFFFF - uint32(8+r.IntN(6)))
+		}
+	}
 
 	var sent []*sentFrame
 	bySig := map[string]*sentFrame{}
-	prioRun := r.IntN(3) == 0
+	prioRun := r.IntN(3) == 0 && !p.wrap
 	send := func(k int, size int) bool {
 		f, sf, err := makeFrame(r, from, to, k, size, prioRun)
 		if err != nil {
@@ -503,6 +522,13 @@ func genPlans(r *rand.Rand, quick bool) []plan {
 		ps = append(ps, plan{kind: "hold", at: 3, distance: d, field: "whole-frame"})
 	}
 	ps = append(ps, plan{kind: "replay", at: 0, distance: 250, field: "whole-frame"})
+	// re-segmentation of the stream (1, 2, 3, 7, 1000 bytes per read)
+	for _, n := range []int{1, 2, 3, 7, 1000} {
+		ps = append(ps, plan{kind: "segmented", distance: n, field: "stream"})
+	}
+	// replays and duplicates across a key rollover of the link session
+	ps = append(ps, plan{kind: "replay", at: 2, distance: 40, field: "whole-frame", wrap: true}, plan{kind: "duplicate", at: 1, distance: 30, field: "whole-frame", wrap: true},
+		plan{kind: "none", field: "none", wrap: true})
 	ps = append(ps, plan{kind: "reflect", at: 5, field: "whole-frame"}, plan{kind: "reflect", at: 11, field: "whole-frame"})
 	for _, d := range []int{2, 3, 62, 63, 64, 65, 66, 128} {
 		ps = append(ps, plan{kind: "gap-replay", at: 4, distance: d, field: "whole-frame"})
